@@ -261,17 +261,20 @@ def recv_limit(sx, fw, server):
     return []
 
 
-def stream(sx, fw, server, ser, nmsg, two_cuts=False):
-    """after attachment a sequence of messages is delivered intact and in order under a free segmentation"""
+def stream(sx, fw, server, ser, nmsg, two_cuts=False, with_hs=False):
+    """after attachment a sequence of messages is delivered intact and in order under a free segmentation; with_hs: the peer's handshake
+    octets are part of the same segmented stream (frames pipelined right behind the handshake)"""
     from autobahn.wamp import message
     log = []
     p, t, rx = _mk_raw(fw, server, log, [ser])
     t.take()
-    rx(bytes([0x7F, (15 << 4) | SER_ID[ser], 0, 0]))
-    t.take()
+    hs = bytes([0x7F, (15 << 4) | SER_ID[ser], 0, 0])
+    if not with_hs:
+        rx(hs)
+        t.take()
     s = _sers([ser])[0]
     msgs = [message.Event(7, 100 + i, args=[i, "x" * i]) for i in range(nmsg)]
-    data = b""
+    data = hs if with_hs else b""
     for m in msgs:
         d, _ = s.serialize(m)
         data += struct.pack("!I", len(d)) + d
@@ -512,6 +515,7 @@ def units(tier):
             U.append(("recvlimit/%s/%s" % (fw, "S" if server else "C"), "recv_limit", dict(fw=fw, server=server), dict(weight=2, **extra)))
             for ser in ("json", "msgpack"):
                 U.append(("stream/%s/%s/%s" % (fw, "S" if server else "C", ser), "stream", dict(fw=fw, server=server, ser=ser, nmsg=3, two_cuts=not q), dict(weight=6, **extra)))
+            U.append(("stream-hs/%s/%s" % (fw, "S" if server else "C"), "stream", dict(fw=fw, server=server, ser="json", nmsg=2, two_cuts=not q, with_hs=True), dict(weight=6, **extra)))
     for tk in ("ws-server", "ws-client", "raw-server", "raw-client"):
         for kind in ("wrong-frame-type", "garbage", "protocol-violation", "unknown-type", "session-raises", "none"):
             if kind == "none":
